@@ -12,7 +12,7 @@ COMMON_TRUSTED_BASE = [
     "hand-written Gallina model coq/theories/{Bytes,Base,Chunk,Body,Httparse,Parser,Url,Request,Call,Flow,Script}.v: its faithfulness to the Rust code is validated by the correspondence check, not proved (except the translated functions)",
     "correspondence check: extraction (ExtrOcamlBasic directives only: bool, option, unit, list, prod, sumbool, sumor; andb/orb inlined), ocamlfind ocamlopt 4.13.1, modelrun/driver.ml, harness/src/main.rs, rustc/cargo, verif.py and props_py/*",
     "tools/source_facts.py (regenerates Constants.v from /repo/src by anchored regular expressions)",
-    "tools/rs2coq.py (translator Rust -> Gallina for the decision tables of ext.rs, for_response, calculate_max_input, max_chunk_fit: Gen.v, regenerated each run; usize as N, '-' as truncated subtraction, overflow of + and * not modelled); the equalities Gen = model are theorems (proofs/Gen_equiv_*.v)",
+    "tools/rs2coq.py (translator Rust -> Gallina for the decision tables of ext.rs, for_response, calculate_max_input, max_chunk_fit: Gen.v, regenerated each run; usize as N, '-' as truncated subtraction, overflow of + and * not modelled); the equalities Gen = model are theorems (proofs/Gen_equiv_*.v); the same for single expressions (byte counts of body reads/writes, refusal guards: FRAGMENTS, proofs/Gen_equiv_frag.v) -- a fragment the translator does not find is listed under facts.fragments_not_found and is then tied by the correspondence check only",
     "kernel cross-check: a seeded sample of the scripts is evaluated inside Coq (vm_compute) and compared with the extracted model's output on every run, which removes extraction, ocamlopt and the OCaml driver from the trusted base for that sample",
     "externals modelled by hand, tied to the code only by the correspondence check: httparse 1.9.5 (scalar semantics), http 1.1.0 (HeaderName/HeaderValue/HeaderMap/Method/StatusCode/Uri accessors), url 2.5 join on the RFC 3986 grammar, std number parsing/formatting",
 ]
